@@ -129,7 +129,7 @@ impl Prop for C13 {
      without a line break and the next tree starts with a mapped chunk; distinct by hash of the case JSON".into()
   }
   fn legs(&self, _tier: Tier) -> Vec<Leg<Case>> {
-    vec![Leg { name: "triples", source: Cases::Generated(Box::new(strategy), 25_000, 800_000) }]
+    vec![Leg { name: "triples", source: Cases::Generated(Box::new(strategy), 80_000, 1_200_000) }]
   }
   fn check(&self, case: &Case) -> CheckResult {
     let (a, b, c) = (case.a.clone(), case.b.clone(), case.c.clone());
